@@ -27,9 +27,11 @@ ASSUMPTIONS = [
     'coefficients are dyadic Gaussian rationals so that float arithmetic is exact',
 ]
 OPEN_STATEMENTS = [
-    'hc for BosonOperator / QuadOperator: proved that the stored (re-sorted) key denotes the reversed(-and-flipped) word '
-    '(hc_boson_term_sound, hc_quad_term_sound) and that the formal involution is an anti-homomorphism on generators; '
-    'that this involution is the Hilbert-space adjoint, and injectivity of the key map, are Corr + oracle only',
+    'hc for BosonOperator: the stored (re-sorted) key is proved to be the adjoint of the word for the Fock (Bargmann) '
+    'inner product of the polynomial representation, all matrix elements, unbounded occupation (hc_boson_adjoint, '
+    'hc_boson_term_sound); hc for QuadOperator: the stored key denotes the reversed word (hc_quad_term_sound) - that '
+    'q, p are self-adjoint needs the L2 inner product, which the polynomial Spec does not have (oracle: truncated '
+    'matrices); injectivity of the key map (no overwriting between terms) is Corr + oracle only',
     'commutator_def / anticommutator_def are proved for every term functional in the exact regime of the in-place '
     'addition (hypothesis ExactAdd: no non-zero coefficient below EQ_TOLERANCE is pruned); double_commutator_def is '
     'proved in every ring interpretation satisfying the CAR and on the Fock space of the Spec (generic path; '
